@@ -64,6 +64,16 @@ CLAIMS = {
         "accessors; an observation test the analysis cannot attribute makes the instance UNRESOLVED. Five genuine defect groups found by these rules were repaired (fix commits f81538a, 66aee58, fefc5f3, 4efb73f, 1da6963).",
         "DESIGN.md §3 C02 and Appendix A",
     ),
+    "C14": (
+        "taint analysis of id()/hash() results, set-typed iteration lint with order-sensitivity classification of loop bodies (mypy-typed cross-check in the thorough tier), module-state-to-name flow check",
+        "Every id()/hash() call on the export path is followed to its uses (keys/comparisons are fine; names, attributes, sort keys are violations); every iteration over a set/frozenset "
+        "(for, comprehension, list(S), S.pop(), next(iter(S))) is classified by what its body does (name allocation, node emission/insertion, append to a list whose order is observed later, "
+        "first-match selection); module-level mutable state written on the export path must not reach a model name; plugin discovery order is reported. "
+        "The hash-seed / allocation-history quantifier is exactly what a single-process test cannot vary.",
+        "Not decided: byte identity itself, onnx_ir passes, protobuf serialisation. Set typing is syntactic in the quick tier (constructors, annotations, helper return annotations) and cross-checked "
+        "against mypy-inferred types in the thorough tier. The one genuine hit (function/graph input order from a set[str]) was repaired (fix commit 16ea4a8).",
+        "DESIGN.md §3 C14",
+    ),
 }
 
 NOT_APPLICABLE = {
